@@ -1,5 +1,6 @@
 import StraxModel.Driver.C07
 import StraxModel.Model.Superrun
+import StraxModel.Generated.RunDoc
 namespace Strax.Driver
 open Strax Strax.Superrun
 
@@ -49,7 +50,7 @@ def canonRuns (rs : Runs) : Runs :=
 def showMeta (c : Chunk) : String :=
   s!"{showStrOpt c.runId}|{c.start}|{c.stop}|{c.rows.length}|{showRunsOpt (c.subruns.map canonRuns)}"
 
-def showStoredLevels (w : World) (key : String) (store : Store) : String :=
+def showStoredLevels (w : World) (key : Key String) (store : Store String) : String :=
   " ".intercalate (w.levels.map fun lv =>
     match store.lookup (key, lv.dataType) with
     | none => s!"{lv.dataType}:-"
@@ -58,8 +59,8 @@ def showStoredLevels (w : World) (key : String) (store : Store) : String :=
 /-- the whole scenario of one correspondence case, see checks/props/c14.py -/
 def scenario (w : World) (docs : List (String × Int)) (data1 data2 : List String) (n : Nat)
     (combining write : Bool) (premake : Option Nat) : Except Err String := do
-  let spec1 ← definedSpec docs data1
-  let store : Store := []
+  let spec1 ← definedSpec Generated.runDocSortKeys docs data1
+  let store : Store String := []
   let store ← match premake with
     | none => pure store
     | some p => do
@@ -70,7 +71,7 @@ def scenario (w : World) (docs : List (String × Int)) (data1 data2 : List Strin
   let m1 := showStoredLevels w key1 store
   let (y2, store) ← superGet keyH w spec1 store n combining write
   let stored1 := isStored keyH w spec1 store n combining
-  let spec2 ← definedSpec docs data2
+  let spec2 ← definedSpec Generated.runDocSortKeys docs data2
   let same := decide (superrunKey keyH w.superName spec2 combining = key1)
   let stored2 := isStored keyH w spec2 store n combining
   let (y3, store) ← superGet keyH w spec2 store n combining write
@@ -91,7 +92,7 @@ open C14
 def handleC14 : List String → Option String
   | ["c14.definerun", docs, data] => do
     let docs ← parseDocs docs
-    pure <| showExcept (fun l => s!"passed={showIdsL l} stored={showIdsL (runDocSpec l)}") (defineRun docs (parseIds data))
+    pure <| showExcept (fun l => s!"passed={showIdsL l} stored={showIdsL (runDocSpec Generated.runDocSortKeys l)}") (defineRun docs (parseIds data))
   | ["c14.samekey", s1, c1, s2, c2] => do
     let c1 ← parseBool c1; let c2 ← parseBool c2
     let same := decide (superrunKey keyH "_s" (parseIds s1) c1 = superrunKey keyH "_s" (parseIds s2) c2)
@@ -107,7 +108,10 @@ def handleC14 : List String → Option String
   | "c14.concat" :: rest => handleC07 ("concat" :: rest)
   | "c14.continuity" :: cs => do
     let cs ← cs.mapM parseRawChunk
-    pure <| showExcept (fun _ => "-") (rawChunksToChunks cs >>= Superrun.continuityCheck)
+    -- both models of `continuity_check` (Model/Superrun.lean and the shared Model/Chunk.lean) must agree
+    let a := showExcept (fun _ => "-") (rawChunksToChunks cs >>= Superrun.continuityCheck)
+    let b := showExcept (fun _ => "-") (rawChunksToChunks cs >>= Strax.continuityCheck)
+    pure (if a == b then a else s!"models-disagree {a} / {b}")
   | "c14.rechunk" :: rest => handleC07 ("rechunk" :: rest)
   | "c14.csplit" :: rest => handleC07 ("csplit" :: rest)
   | "c14.splitruns" :: rest => handleC07 ("splitruns" :: rest)
